@@ -8,7 +8,7 @@
    every order in which Go's range statement may produce the keys.
    [run ops = Ok st] holds exactly for the histories that only name existing
    handles (C11_no_panic); [abs b] is the set of pairs of b (its forward map). *)
-From Typ Require Import Lib.Base Maps.Bimap Maps.BimapProofs.
+From Typ Require Import Lib.Base Maps.BimapCheck Maps.Bimap Maps.BimapProofs.
 Local Open Scope Z_scope.
 
 (* No operation of a history ever panics (in particular no write to the nil
@@ -171,3 +171,12 @@ Example C11_example :
    Ok (map (fun b => fst (Range b [2; 0; 1] (recording (fun (n : Z) _ _ => (n + 1, n + 1 <? 2))) ([], 0))) st)) =
   Ok [[(2, 1); (0, 3)]; [(2, 1); (0, 3)]].
 Proof. vm_compute. repeat split. Qed.
+
+(* The correspondence check itself is not vacuous: it accepts a correct
+   recorded observation and rejects one with a single wrong entry. *)
+Example C11_check_case_discriminates :
+  let good := Obs [ZB 0 false; ZB 0 true] [ZB 1 true; ZB 0 false] [false; true] [true; false] 1 [ZZ 1 0] 1 [ZZ 1 0] in
+  let bad := Obs [ZB 0 false; ZB 0 true] [ZB 0 false; ZB 0 false] [false; true] [true; false] 1 [ZZ 1 0] 1 [ZZ 1 0] in
+  check_case (Case [0; 1] 0 [] [St (CAdd 0 1 0) [H 0 good]]) = true /\
+  check_case (Case [0; 1] 0 [] [St (CAdd 0 1 0) [H 0 bad]]) = false.
+Proof. vm_compute. split; reflexivity. Qed.
